@@ -17,7 +17,10 @@ def Tern(c, a, b): return {"k": "tern", "c": c, "a": a, "b": b}
 def Nilco(l, r): return {"k": "nilco", "l": l, "r": r}
 def L(*es): return {"k": "list", "es": list(es)}
 def M(*kv): return {"k": "map", "ks": [k for k, _ in kv], "vs": [v for _, v in kv]}
+def TL(ty, *es): return {"k": "list", "es": list(es), "ty": ty}                 # []int64{...}
+def TM(ty, *kv): return {"k": "map", "ks": [k for k, _ in kv], "vs": [v for _, v in kv], "ty": ty}   # map[string]int64{...}
 def Idx(e, i): return {"k": "idx", "e": e, "i": i}
+def Addr(e): return {"k": "addr", "e": e}
 def Len_(e): return {"k": "len", "e": e}
 def Member(e, n): return {"k": "member", "e": e, "n": n}
 def Call(n, *args, spread=False): return {"k": "call", "n": n, "args": list(args), "spread": spread}
@@ -293,6 +296,26 @@ def fam_closures():
     add("let-multi", [Let(["a", "b"], [I(1), I(2)]), Let(["a", "b"], [Id("b"), Id("a")]), P(Id("a")), P(Id("b")), Ret(I(0))])
     add("module-error-scope", [Let("x", I(1)), Try([Module("m", [Let("x", I(2)), Var("priv", I(7)), Throw(S("in module"))])], "e", [P(Id("e")), rd("priv"), P(Id("x"))]), rd("priv"), P(Id("x")), Ret(I(0))])
     add("func-error-scope", [Let("x", I(1)), FnStmt("f", [], [Var("loc", I(7)), Throw(S("in f"))]), Try([E(Call("f"))], "e", [P(Id("e")), rd("loc")]), rd("loc"), Ret(I(0))])
+    # a closure made in a nested block of an invocation that has bound nothing yet escapes the block; the invocation binds a name
+    # afterwards; the closure must see (and assign) that binding: scopes are linked by position, not by what they hold at the time
+    for w in SCOPE_WRAPS:
+        for bind in ("var", "set"):
+            for act in ("read", "assign"):
+                for esc in ("global", "list", "map"):
+                    for depth in (1, 2):
+                        c = Ctr(70)
+                        clo = Fn([], [Ret(Nilco(Id("x"), S("undef")))]) if act == "read" else Fn([], [Let("x", Bin("+", Nilco(Id("x"), I(100)), I(1))), Ret(Id("x"))])
+                        store = {"global": [Let("g", clo)], "list": [Let([Idx(Id("hl"), I(0))], [clo])], "map": [Let([Member(Id("hm"), "f")], [clo])]}[esc]
+                        fetch = {"global": Id("g"), "list": Idx(Id("hl"), I(0)), "map": Member(Id("hm"), "f")}[esc]
+                        inner = w(store, c)
+                        if depth == 2:
+                            inner = s_if(inner, c)
+                        binding = [Var("x", I(5))] if bind == "var" else [Let("x", I(5))]
+                        body = inner + binding + [P(ACall(fetch)), P(Id("x")), P(ACall(fetch)), Ret(I(0))]
+                        prog = [Let("g", NIL), Let("hl", L(NIL)), Let("hm", M((S("f"), NIL))), FnStmt("f", [], body), E(Call("f")), rd("x"), Ret(I(0))]
+                        if w in (s_func, s_anon, s_module) and depth == 2:
+                            continue
+                        add("late-%s-%s-%s-%s-%d" % (w.__name__[2:], bind, act, esc, depth), prog)
     return out
 
 
@@ -400,6 +423,16 @@ def fam_c07():
     add("go-variadic-spread", [Try([E(Call("pn", PV(1, I(1)), PV(2, L(I(7), I(8))), spread=True))], "e", [P(60)]), Ret(I(0))])
     add("defer-go-fixed", [FnStmt("d", [], [Defer(Call("pv", PV(1, I(1)), PV(2, I(2)))), P(40), Ret(I(0))]), E(Call("d")), Ret(I(0))])
     add("defer-go-variadic", [FnStmt("d", [], [Defer(Call("pn", PV(1, I(1)), PV(2, I(2)), PV(3, I(3)))), P(40), Ret(I(0))]), E(Call("d")), Ret(I(0))])
+    # pointer arguments to a Go function: the operands inside &a[i] / &m.k are evaluated once, in order, before the call
+    pre = [Let("la", L(I(5), I(6), I(7))), Let("ma", M((S("k"), I(1)))), Let("xa", I(3)), FnStmt("mk", [], [P(30), Ret(Id("ma"))])]
+    add("addr-ident", pre + [Try([E(Call("pa", Addr(Id("xa")))), P(Id("xa"))], "e", [P(60)]), Ret(I(0))])
+    add("addr-item", pre + [Try([E(Call("pa", Addr(Idx(Id("la"), PV(1, I(1)))))), P(Id("la"))], "e", [P(60)]), Ret(I(0))])
+    add("addr-item-expr", pre + [Try([E(Call("pa", Addr(Idx(PV(1, Id("la")), PV(2, I(0)))))), P(Id("la"))], "e", [P(60)]), Ret(I(0))])
+    add("addr-mapitem", pre + [Try([E(Call("pa", Addr(Idx(Id("ma"), PV(1, S("k")))))), P(Id("ma"))], "e", [P(60)]), Ret(I(0))])
+    add("addr-member", pre + [Try([E(Call("pa", Addr(Member(PV(1, Id("ma")), "k")))), P(Id("ma"))], "e", [P(60)]), Ret(I(0))])
+    add("addr-member-call", pre + [Try([E(Call("pa", Addr(Member(Call("mk"), "k")))), P(Id("ma"))], "e", [P(60)]), Ret(I(0))])
+    add("addr-item-bad", pre + [Try([E(Call("pa", Addr(Idx(Id("la"), BAD))))], "e", [P(60)]), Ret(I(0))])
+    add("addr-two", pre + [Try([P(L(Call("pa", Addr(Idx(Id("la"), PV(1, I(1))))), Call("pa", Addr(Idx(Id("la"), PV(2, I(2)))))))], "e", [P(60)]), Ret(I(0))])
     # literals, operators, index, return list, multi-assignment
     for bad in (None, 0, 1, 2):
         o = ops(3, bad)
@@ -413,6 +446,14 @@ def fam_c07():
         for op in ("+", "-", "*", "<", "==", "!=", ">=", "%"):
             add("bin%s-%s" % (op, bad), [Try([P(Bin(op, o[0], o[1]))], "e", [P(60)]), Ret(I(0))])
         add("idx-%s" % bad, [Try([P(Idx(BAD if bad == 0 else PV(1, L(I(5), I(6), I(7))), BAD if bad == 1 else PV(2, I(1))))], "e", [P(60)]), Ret(I(0))])
+        for ty in ("map[string]int64", "map[string]interface"):
+            add("tmap-%s-%s" % (ty[11:], bad), [Try([P(Len_(TM(ty, (BAD if bad == 0 else PV(1, S("a")), PV(2, I(1))), (PV(3, S("b")), BAD if bad == 1 else PV(4, I(2))))))], "e", [P(60)]), Ret(I(0))])
+        # a key / a value that cannot be converted fails where it stands: nothing after it is evaluated
+        add("tmap-badkey-%s" % bad, [Try([P(Len_(TM("map[string]int64", (PV(1, S("a")), PV(2, I(1))), (PV(3, L(I(9))), PV(4, I(2))), (PV(5, S("c")), PV(6, I(3))))))], "e", [P(60)]), Ret(I(0))])
+        add("tmap-badval-%s" % bad, [Try([P(Len_(TM("map[string]int64", (PV(1, S("a")), PV(2, S("x"))), (PV(3, S("b")), PV(4, I(2))))))], "e", [P(60)]), Ret(I(0))])
+        for ty in ("[]int64", "[]interface"):
+            add("tlist-%s-%s" % (ty[2:], bad), [Try([P(Len_(TL(ty, BAD if bad == 0 else PV(1, I(1)), BAD if bad == 1 else PV(2, I(2)), PV(3, I(3)))))], "e", [P(60)]), Ret(I(0))])
+        add("tlist-badval-%s" % bad, [Try([P(Len_(TL("[]int64", PV(1, I(1)), PV(2, S("x")), PV(3, I(3)))))], "e", [P(60)]), Ret(I(0))])
         add("mapkeys-%s" % bad, [Try([P(M((BAD if bad == 0 else PV(1, S("a")), PV(2, I(1))), (PV(3, S("b")), BAD if bad == 1 else PV(4, I(2)))))], "e", [P(60)]), Ret(I(0))])
     # nested trees: left-to-right through nesting
     add("nested", [P(Bin("+", Bin("*", PV(1, I(2)), PV(2, I(3))), Call("pv", PV(3, I(3)), Bin("-", PV(4, I(9)), PV(5, I(1)))))), Ret(I(0))])
